@@ -2,6 +2,7 @@ package rules
 
 import (
 	"fmt"
+	"go/types"
 
 	"verif/internal/absint"
 	"verif/internal/load"
@@ -164,8 +165,21 @@ func b2sModel(set *models.Set) {
 		b := ex.SliceBytes(cc.St, cc.Args[0])
 		ok := sym.App(sym.Bool, "b2s_ok", b)
 		sc := ex.AllocAbs(models.ScalarType, models.Mod, "Scalar", sym.App(sym.Fn, "b2s", b))
+		obj := absint.MergeVal(ok, sc, absint.Nil{})
+		// the success indicator follows the routine's signature: error, bool, or the nil-able object alone
+		if cc.Fn != nil {
+			res := cc.Fn.Signature.Results()
+			if res.Len() == 1 {
+				return obj, true
+			}
+			if res.Len() == 2 {
+				if b, isB := res.At(1).Type().Underlying().(*types.Basic); isB && b.Kind() == types.Bool {
+					return absint.Tuple{obj, ok}, true
+				}
+			}
+		}
 		errv := &absint.Iface{Opaque: sym.Sym(sym.Any, "err:b2s"), NonNil: true}
-		return absint.Tuple{absint.MergeVal(ok, sc, absint.Nil{}), absint.MergeVal(ok, &absint.Iface{}, errv)}, true
+		return absint.Tuple{obj, absint.MergeVal(ok, &absint.Iface{}, errv)}, true
 	}
 }
 
@@ -281,7 +295,7 @@ func c12BytesToScalar(c *Ctx, prog *load.Program) {
 			good, detail = false, fmt.Sprintf("length %d: %s %v", L, p, len(r.Ex.Panics))
 			break
 		}
-		acc, prob := acceptFormula(r, 1)
+		acc, prob := successFormula(r)
 		if prob != "" {
 			good, detail = false, prob
 			break
